@@ -18,7 +18,7 @@ var c13Space = mkSpace("logout", []fieldDim{
 	{"Issuer", []string{"", "b", "c", "unregistered", "absent", "empty"}},
 	{"ID", []string{"", "empty", "absent", "special"}},
 	{"Instant", []string{"", "-1y", "-1h", "now", "+1us", "+1s", "+1h", "junk", "tz", "9dig-", "date"}},
-	{"NOOA", []string{"", "-1y", "-1us", "now", "+1us", "+1y", "junk", "date"}},
+	{"NOOA", []string{"", "-1y", "-1us", "now", "+1us", "+1y", "junk", "date", "zero", "epoch"}},
 	{"NameID", []string{"", "absent"}},
 	{"Session", []string{"", "two"}},
 	{"Relay", []string{"", "none"}},
